@@ -83,6 +83,10 @@ def eval_scalar(spec, x):
     if k == "cubic":
         c = np.array(spec["c"], float)
         return float(np.sum((x - c) ** 3 + (x - c) ** 2))
+    if k == "noisy":  # deterministic high-frequency perturbation of a quadratic ("noisy" objective)
+        a = np.array(spec["a"], float)
+        c = np.array(spec["c"], float)
+        return float(np.sum(a * (x - c) ** 2) + 0.015625 * np.sin(1024.0 * float(np.sum(x))))
     if k == "rosen":
         return float(np.sum(100.0 * (x[1:] - x[:-1] ** 2) ** 2
                             + (1.0 - x[:-1]) ** 2))
